@@ -37,7 +37,7 @@ R1 == Obj([src |-> Obj([a |-> IntV(1), b |-> Arr(<<IntV(3), IntV(1), IntV(2)>>),
                         ll |-> Arr(<<Arr(<<IntV(3), IntV(1), IntV(2)>>), Arr(<<IntV(2), IntV(1)>>)>>),
                         sel |-> S1(97), keys |-> Arr(<<S1(97), S1(102), S1(97)>>), o |-> Obj([a |-> IntV(1), c |-> Null]),
                         zf |-> Flt(0, 0), zi |-> IntV(0), tmp |-> IntV(1),
-                        big |-> B53p1, big2 |-> B53, ids |-> Arr(<<B62p1, B62>>), rec |-> Obj([id |-> MaxI])])])
+                        big |-> B53p1, big2 |-> B53, ids |-> Arr(<<B62p1, B62>>), rec |-> Obj([id |-> MaxI]), kn |-> Str(<<97, 115, 109>>)])])
 R2 == Obj([src |-> Arr(<<IntV(1), S1(97), Arr(<<IntV(2)>>)>>), asm |-> Obj([x |-> IntV(1)])])
 R3 == Obj([src |-> Obj([k |-> IntV(5), x |-> IntV(7)])])
 \* the second root of every case (same shape, other values): the SAME Plan object is executed on it after the first root
@@ -47,7 +47,7 @@ R1b == Obj([src |-> Obj([a |-> IntV(5), b |-> Arr(<<IntV(9), IntV(7), IntV(8)>>)
                          ll |-> Arr(<<Arr(<<IntV(2), IntV(9), IntV(4)>>), Arr(<<IntV(1), IntV(0)>>)>>),
                          sel |-> S1(102), keys |-> Arr(<<S1(102), S1(97)>>), o |-> Obj([a |-> IntV(1), c |-> IntV(2)]),
                          zf |-> Flt(0, 0), zi |-> IntV(0), tmp |-> IntV(2),
-                         big |-> B62p1, big2 |-> B62, ids |-> Arr(<<B53p1, B53>>), rec |-> Obj([id |-> MaxIm1])])])
+                         big |-> B62p1, big2 |-> B62, ids |-> Arr(<<B53p1, B53>>), rec |-> Obj([id |-> MaxIm1]), kn |-> Str(<<97, 115, 109>>)])])
 R2b == Obj([src |-> Arr(<<IntV(4), S1(98), Arr(<<IntV(6), IntV(5)>>)>>), asm |-> Obj([x |-> IntV(2)])])
 R3b == Obj([src |-> Obj([k |-> IntV(6), x |-> IntV(1)])])
 
@@ -269,8 +269,8 @@ Var3Plans == {Call(f, t) : f \in {x \in Fns : Canon(x) \in {"and", "or", "list",
 BigAtoms == BigInts \cup {IntV(3), P(FALSE, <<C("src"), C("big")>>), P(FALSE, <<C("src"), C("big2")>>), P(FALSE, <<C("src"), C("ids"), N(0)>>)}
 BigConts == {Arr(<<B53>>), Arr(<<B53p1>>), Obj([id |-> B53p1]), Obj([id |-> B53]), Arr(<<IntV(1), Obj([id |-> MaxI])>>), Arr(<<IntV(1), Obj([id |-> MaxIm1])>>),
              P(FALSE, <<C("src"), C("ids")>>), Arr(<<B62p1, B62>>), Arr(<<B62, B62>>), P(FALSE, <<C("src"), C("rec")>>), Obj([id |-> MaxI]), Flt(3, 1), Flt(2, 0)}
-BigPlans == {Call(f, <<a, b>>) : f \in {x \in Fns : Canon(x) \in {"equal", "neq", "lt", "lte", "gt", "gte"} /\ (Big \/ Canon(x) = x)}, a \in BigAtoms, b \in BigAtoms}
-            \cup {Call(f, <<a, b>>) : f \in {x \in Fns : Canon(x) \in {"equal", "neq"} /\ (Big \/ Canon(x) = x)}, a \in BigConts \cup {B53, B53p1, MaxI}, b \in BigConts \cup {B53, B53p1, MaxI}}
+BigPlans == {Call(f, <<a, b>>) : f \in {x \in Fns : (Big /\ Canon(x) \in {"equal", "neq", "lt", "lte", "gt", "gte"}) \/ x \in {"equal", "neq", "lt", "gte"}}, a \in BigAtoms, b \in BigAtoms}
+            \cup {Call(f, <<a, b>>) : f \in {x \in Fns : (Big /\ Canon(x) \in {"equal", "neq"}) \/ x = "equal"}, a \in BigConts \cup {B53, B53p1, MaxI}, b \in BigConts \cup {B53, B53p1, MaxI}}
             \cup {Call(f, <<a, b, d>>) : f \in {"equal", "neq", "lt", "gte"}, a \in {B53, B53p1}, b \in {B53, B53p1, MaxI}, d \in {B53, B53p1, IntV(3)}}
             \cup {Call(f, <<a>>) : f \in Fns, a \in {B53p1, MinI}} \cup {Call(f, <<a, b>>) : f \in {"sum", "dif", "product", "quotient", "mod", "nth", "list", "size"}, a \in {B53p1, IntV(3)}, b \in {MaxI, IntV(2)}}
 
@@ -284,6 +284,52 @@ ImpliedRests == {<<>>, <<Call("set", <<P(FALSE, <<C("asm")>>), P(TRUE, <<>>)>>)>
                  <<IntV(9), Call("set", <<P(FALSE, <<C("asm")>>), P(TRUE, <<>>)>>)>>, <<Call("set", <<P(FALSE, <<C("asm"), C("a")>>), P(TRUE, <<>>)>>), Call("set", <<P(FALSE, <<C("asm"), C("b")>>), IntV(2)>>)>>,
                  <<Call("set", <<P(FALSE, <<C("asm")>>), Call("null?", <<P(TRUE, <<>>)>>)>>)>>}
 ImpliedPlans == {Call("asm", <<x>> \o r) : x \in ImpliedFirsts, r \in ImpliedRests}
+
+\* ------------------------------------------------------------------ argument routing: $ paths read the root, @ paths the local value.
+\* The table (function x argument position x root of the path) is generated for contexts where @ is NOT the root and the
+\* same path resolves to DIFFERENT values under $ and @: behind a literal step of an asm ([asm LOCAL call consumer]) and in
+\* an each body over maps that mirror $.src; plus the special forms (cond test and value, each list / key, asm steps, get
+\* with data, sort key, nested combinations)
+Local == Obj([src |-> Obj([a |-> IntV(100), b |-> Arr(<<IntV(9), IntV(8)>>), s |-> Str(<<122, 122>>), t |-> Bool(FALSE), c |-> Obj([d |-> S1(113)]),
+                           l |-> Arr(<<Obj([k |-> IntV(5)]), Obj([k |-> IntV(4)])>>), kn |-> S1(122), sel |-> S1(98), zi |-> IntV(1)])])
+RP(at, x) == P(at, <<C("src"), C(x)>>)
+RouteNames == {"a", "b", "t"}
+Fill == IntV(2)
+RouteArgs(at) == {<<RP(at, x)>> : x \in RouteNames \cup {"s"}}
+                 \cup {<<RP(at, x), Fill>> : x \in RouteNames} \cup {<<Fill, RP(at, x)>> : x \in RouteNames}
+                 \cup {<<RP(at, x), Fill, Fill>> : x \in RouteNames} \cup {<<Fill, RP(at, x), Fill>> : x \in RouteNames} \cup {<<Fill, Fill, RP(at, x)>> : x \in RouteNames}
+StoreAt == Call("set", <<P(FALSE, <<C("asm"), C("r")>>), P(TRUE, <<>>)>>)
+Behind(mid) == Call("asm", <<Local, mid, StoreAt>>)
+EachMaps == Arr(<<Obj([t |-> Bool(FALSE), a |-> IntV(10), b |-> Arr(<<IntV(9)>>)]), Obj([t |-> Bool(FALSE), a |-> IntV(20), b |-> Arr(<<IntV(7), IntV(6)>>)])>>)
+InEach(mid) == Call("each", <<EachMaps, Call("set", <<P(TRUE, <<C("asm")>>), mid>>)>>)
+Variadic == {x \in Fns : Canon(x) \in {"sum", "product", "lt", "gte", "equal", "neq", "and", "or", "list", "asm", "cond", "each", "string", "substr", "replace", "join"} /\ Canon(x) = x}
+RouteTable == UNION {{Behind(Call(f, t)) : f \in Fns, t \in {a \in RouteArgs(at) : Len(a) <= 2}}
+                     \cup {Behind(Call(f, t)) : f \in (IF Big THEN Fns ELSE Variadic), t \in {a \in RouteArgs(at) : Len(a) = 3}}
+                     \cup {InEach(Call(f, t)) : f \in {x \in Fns : Canon(x) \in Specified /\ Canon(x) = x},
+                                                  t \in {<<RP(at, x)>> : x \in RouteNames} \cup {<<RP(at, x), Fill>> : x \in RouteNames}
+                                                         \cup (IF Big THEN {<<Fill, RP(at, x)>> : x \in RouteNames} ELSE {})}
+                     : at \in BOOLEAN}
+\* typed pairs: a list (or map / string) first, then an index / value path of either root
+TypedPairs == UNION {{Behind(Call(f, <<RP(a1, x), RP(a2, y)>>)) : f \in {q \in Fns : Canon(q) \in Specified /\ Canon(q) = q} \cup {"include", "join", "split", "substr", "string", "trim"},
+                                                                x \in {"b", "c", "s"}, y \in {"zi", "a"}} : a1 \in BOOLEAN, a2 \in BOOLEAN}
+\* special forms
+CondForms(at) == {Call("cond", <<Pair(RP(at, "t"), IntV(1)), Pair(Bool(TRUE), IntV(2))>>), Call("cond", <<Pair(Bool(TRUE), RP(at, "a"))>>),
+                  Call("cond", <<Pair(Bool(FALSE), IntV(0)), Pair(RP(at, "t"), RP(at, "a")), Pair(Bool(TRUE), RP(~at, "a"))>>),
+                  Call("cond", <<Pair(Call("equal", <<RP(at, "a"), IntV(1)>>), RP(at, "s")), Pair(Bool(TRUE), RP(at, "b"))>>),
+                  Call("cond", <<Pair(Call("not", <<RP(at, "t")>>), Call("list", <<RP(at, "a"), RP(~at, "a")>>))>>)}
+RouteForms == UNION {{Behind(x) : x \in CondForms(at)} \cup {InEach(x) : x \in CondForms(at)}
+                     \cup {Behind(Call("each", <<RP(at, "b"), Call("set", <<P(TRUE, <<C("asm")>>), Call("sum", <<P(TRUE, <<C("src")>>), IntV(1)>>)>>)>>)),
+                           Behind(Call("each", <<RP(at, "b"), Call("set", <<P(TRUE, <<C("asm")>>), Call("sum", <<P(TRUE, <<C("src")>>), P(FALSE, <<C("src"), C("a")>>)>>)>>)>>)),
+                           Behind(Call("each", <<RP(at, "l"), Call("set", <<P(TRUE, <<C("asm")>>), P(TRUE, <<C("src"), C("k")>>)>>)>>)),
+                           Behind(Call("each", <<Arr(<<IntV(1), IntV(2)>>), Call("asm", <<Call("set", <<P(TRUE, <<C("asm")>>), IntV(1)>>), Call("set", <<P(TRUE, <<C("z")>>), IntV(2)>>)>>), RP(at, "kn")>>)),
+                           Behind(Call("asm", <<RP(at, "a")>>)), Call("asm", <<Local, RP(at, "a"), StoreAt>>), Call("asm", <<Local, Call("asm", <<RP(at, "c"), P(TRUE, <<C("d")>>)>>), StoreAt>>),
+                           Behind(Call("get", <<P(at, <<C("a")>>), RP(~at, "c")>>)), Behind(Call("get", <<P(~at, <<C("d")>>), RP(at, "c")>>)), Behind(Call("getall", <<P(at, <<C("d")>>), RP(at, "c")>>)),
+                           Behind(Call("sort", <<RP(at, "l"), P(~at, <<C("k")>>)>>)), Behind(Call("sort", <<RP(at, "l"), P(at, <<C("k")>>)>>)),
+                           Behind(Call("set", <<P(FALSE, <<C("asm"), C("x")>>), Call("get", <<RP(at, "a")>>)>>)), Behind(Call("set", <<P(TRUE, <<C("x")>>), RP(at, "a")>>)),
+                           Behind(Call("set", <<Call("root", <<Str(<<97, 115, 109>>), RP(at, "sel")>>), IntV(1)>>)), Behind(Call("get", <<Call("at", <<Str(<<115, 114, 99>>), RP(at, "sel")>>)>>)),
+                           InEach(Call("each", <<RP(at, "b"), Call("set", <<P(TRUE, <<C("asm")>>), P(TRUE, <<C("src")>>)>>)>>)),
+                           Behind(InEach(Call("list", <<RP(at, "a"), P(TRUE, <<C("src"), C("a")>>)>>))),
+                           Behind(Call("nth", <<RP(at, "b"), RP(~at, "zi")>>)), Behind(Call("append", <<RP(at, "b"), RP(~at, "a")>>))} : at \in BOOLEAN}
 
 \* ------------------------------------------------------------------ families
 Both(ps, r) == {Case(Wrapped(p), r, FALSE) : p \in ps} \cup {Case(p, r, FALSE) : p \in ps}
@@ -307,6 +353,7 @@ Cases ==
     [] Part = "var3" -> {Case(Wrapped(p), R1, FALSE) : p \in Var3Plans}
     [] Part = "bigint" -> {Case(Wrapped(p), R1, FALSE) : p \in BigPlans}
     [] Part = "implied" -> {Case(p, R1, b) : p \in ImpliedPlans, b \in BOOLEAN}
+    [] Part = "route" -> {Case(p, R1, FALSE) : p \in RouteTable \cup RouteForms \cup TypedPairs}
     [] Part = "forms" -> Both(CondPlans \cup SortPlans \cup EachPlans, R1) \cup Both(SortPlans, R3)
     [] OTHER -> {}
 
